@@ -56,6 +56,10 @@ type c12Case struct {
 	// Timeout: the job's scrape_timeout ("" = 10s).  The target answers at once, so any positive timeout is enough;
 	// the transport refuses a request whose deadline has already passed, like a real one
 	Timeout string `json:"timeout,omitempty"`
+	// Limits: the job carries the limits a production job may have: sample_limit (= the number of lines that are not
+	// dropped by the job's metric relabeling, so Prometheus - which counts after relabeling - accepts the scrape),
+	// label_limit, body_size_limit
+	Limits bool `json:"limits,omitempty"`
 }
 
 func (c *c12Case) payload() []byte {
@@ -222,6 +226,18 @@ func runC12(rec *vkit.Recorder, c *c12Case) []vkit.Violation {
 		return &http.Response{StatusCode: 200, Status: "200 OK", Body: cr, Header: h, Request: r}, nil
 	})
 	conf := c12Config
+	if c.Limits {
+		kept := 0
+		for _, g := range c.Groups {
+			if g.Kind != "dropped" {
+				kept += g.Count
+			}
+		}
+		if kept == 0 {
+			kept = 1
+		}
+		conf = strings.Replace(conf, "- job_name: ja\n", fmt.Sprintf("- job_name: ja\n  sample_limit: %d\n  label_limit: 64\n  body_size_limit: 64MB\n", kept), 1)
+	}
 	if c.Timeout != "" {
 		conf = strings.Replace(conf, "scrape_timeout: 10s", "scrape_timeout: "+c.Timeout, 1)
 	}
@@ -248,11 +264,25 @@ func runC12(rec *vkit.Recorder, c *c12Case) []vkit.Violation {
 		}
 	}
 	preq.Header.Set("X-Prometheus-Scrape-Timeout-Seconds", strconv.FormatFloat(tmo.Seconds(), 'f', -1, 64))
-	n.proxy.ServeHTTP(w, preq)
+	aborted := ""
+	func() {
+		// a handler that panics with http.ErrAbortHandler makes net/http cut the connection: Prometheus gets no
+		// (complete) answer
+		defer func() {
+			if r := recover(); r != nil {
+				aborted = fmt.Sprint(r)
+			}
+		}()
+		n.proxy.ServeHTTP(w, preq)
+	}()
 	var vs []vkit.Violation
 	tag := "assigned"
 	if !c.Assigned {
 		tag = "unassigned"
+	}
+	if aborted != "" {
+		vs = append(vs, vkit.Violation{Key: "C12/response-aborted/" + tag, Msg: fmt.Sprintf("the target answered 200 with a complete payload of %d bytes, the proxy aborted the response to Prometheus (%s) after %d bytes", len(pl), aborted, w.buf.Len())})
+		return vs
 	}
 	if c.Gzip {
 		tag += "/gzip"
@@ -284,6 +314,9 @@ func runC12(rec *vkit.Recorder, c *c12Case) []vkit.Violation {
 	}
 	nt := len(pl) > 64*1024 || multi || c.Gzip || w.short > 0
 	cls := []string{tag}
+	if c.Limits {
+		cls = append(cls, "job-with-sample-label-body-limits")
+	}
 	if c.Timeout != "" {
 		cls = append(cls, "scrape-timeout/"+c.Timeout)
 	}
@@ -370,6 +403,7 @@ func genC12(t *rapid.T) *c12Case {
 	c.Assigned = rapid.IntRange(0, 3).Draw(t, "assigned") != 0
 	c.CType = rapid.SampledFrom([]string{"text/plain; version=0.0.4; charset=utf-8", "application/openmetrics-text; version=0.0.1; charset=utf-8", "text/plain", ""}).Draw(t, "ctype")
 	c.Timeout = rapid.SampledFrom([]string{"", "", "900ms", "1500ms", "1s", "14s"}).Draw(t, "timeout")
+	c.Limits = rapid.IntRange(0, 2).Draw(t, "limits") == 0
 	return c
 }
 
